@@ -1,6 +1,7 @@
 import N2V.Model.Basic
 import N2V.Model.Canon
 import N2V.Model.Depfile
+import N2V.Model.Render
 open N2V
 
 def showRes (r : Res Bytes) : String :=
@@ -112,6 +113,37 @@ def handle (case impl : List String) : String :=
     | some t, some expected =>
       showDepfile (Depfile.parse t) ++ mons (depfileMon expected impl)
     | _, _ => "bad-case"
+  | ["taskmsg", h, secs, cols] =>
+    match bytesOfHex h, secs.toNat?, cols.toNat? with
+    | some m, some sc, some c =>
+      let mon := match impl with
+        | ["ok", th] => match bytesOfHex th with
+          | some t => [("fits", decide (t.length ≤ c)), ("noPanic", true)]
+          | none => [("parseImpl", false)]
+        | _ => [("noPanic", false)]
+      showRes (Render.taskMessage m sc c) ++ mons mon
+    | _, _, _ => "bad-case"
+  | ["truncate", h, mx] =>
+    match bytesOfHex h, mx.toNat? with
+    | some m, some k =>
+      let mon := match impl with
+        | ["ok", th] => match bytesOfHex th with
+          | some t => [("fits", decide (t.length ≤ k)), ("prefix", t.isPrefixOf m),
+                       ("boundary", Render.isCharBoundary m t.length)]
+          | none => [("parseImpl", false)]
+        | _ => [("noPanic", false)]
+      "ok " ++ hexOfBytes (Render.truncate m k) ++ mons mon
+    | _, _ => "bad-case"
+  | ["bar", w, r, q, ru, d, f, n] =>
+    match [w, r, q, ru, d, f, n].mapM String.toNat? with
+    | some [w, r, q, ru, d, f, n] =>
+      let mon := match impl with
+        | ["ok", th] => match bytesOfHex th with
+          | some t => [("width", decide (t.length = n))]
+          | none => [("parseImpl", false)]
+        | _ => [("noPanic", false)]
+      "ok " ++ hexOfBytes (Render.progressBar ⟨w, r, q, ru, d, f⟩ n) ++ mons mon
+    | _ => "bad-case"
   | _ => "bad-op"
 
 partial def loop (h : IO.FS.Stream) (out : IO.FS.Stream) : IO Unit := do
